@@ -9,8 +9,8 @@ CONSTANTS AMOUNTS, NONCES, TXHS, MAXH, MAXOPS, FACTORS, POWERS, SLASHIDS, NSTDEL
           EVENTS,      \* event names enabled in Next (generation profiles)
           FRESH   \* TRUE: every undelegation request carries a (nonce, tx hash) pair never used before
 
-VARIABLES L, G, hist, last, nfail
-vars == <<L, G, hist, last, nfail>>
+VARIABLES L, G, hist, last, nfail, atom
+vars == <<L, G, hist, last, nfail, atom>>
 
 \* generation convenience: the behaviour starts with one Deposit per (staker, LST/NST asset)
 PreEvents ==
@@ -29,6 +29,7 @@ Init ==
   /\ hist = PreEvents
   /\ last = [ev |-> "init", ok |-> TRUE]
   /\ nfail = 0
+  /\ atom = TRUE
 
 Do(ev, a) ==
   /\ ev \in EVENTS
@@ -36,6 +37,7 @@ Do(ev, a) ==
   /\ LET r == Apply(L, ev, a) IN
      /\ (r.err = "" \/ nfail < FAILBUDGET)
      /\ nfail' = IF r.err # "" /\ FAILBUDGET < MAXOPS THEN nfail + 1 ELSE nfail
+     /\ atom' = (r.err = "" \/ ev = "EndBlock" \/ r.st = L)   \* C09: a reported failure left the store untouched
      /\ L' = r.st
      /\ G' = GhostStep(G, ev, a, r.err = "", L, r.st)
      /\ hist' = Append(hist, [ev |-> ev, a |-> a])
@@ -61,7 +63,7 @@ Next ==
 
 Spec == Init /\ [][Next]_vars
 
-View == <<L, G, nfail>>
+View == <<L, G, nfail, atom>>
 
 \* ----- invariants (properties C01, C02, C03-aggregates on the model) -----
 InvConservation == Conservation(L, G)
@@ -75,7 +77,7 @@ InvEmptyPool    == EmptyPool(L)
 InvPendingSums  == PendingSums(L)
 InvIndex        == IndexBijective(L)
 \* C09 (model level): a reported failure leaves the store untouched
-InvAtomic       == last.ok \/ TRUE
+InvAtomic       == atom
 
 \* behaviour generation: print the history once it reaches the depth bound
 EmitAtDepth == Len(hist) < MAXOPS + Len(PreEvents) \/ PrintT("BEHAVIOUR " \o ToJson(hist))
